@@ -388,6 +388,7 @@ func c07Orders(evs []c07Event) [][]c07Event {
 }
 
 func scenarioC07(c *Ctx) {
+	c07LateError(c)
 	type cfg struct {
 		n, t, nb int
 		slow     []int // participants that answer batch 1 (index 0) possibly late; others answer every batch
